@@ -760,12 +760,13 @@ Section Phases.
   Qed.
 End Phases.
 
-Lemma place_grid_items_total : forall children m0 fl,
+(* ... and the final matrix has the negative / explicit counts of the initial one and at least its positive counts (`grows`) *)
+Lemma place_grid_items_total_grows : forall children m0 fl,
   0 <= tc_explicit (m_cols m0) <= 64 -> 0 <= tc_explicit (m_rows m0) <= 64 ->
   Forall (fun c => child_ok (snd c)) children ->
   Forall (fun c => child_fits (tc_explicit (m_cols m0)) (tc_explicit (m_rows m0)) m0 (snd c)) children ->
   (length children <= 64)%nat -> cap m0 0 ->
-  exists m items, place_grid_items m0 children fl = Ok (m, items) /\ exists k, 0 <= k <= 64 /\ cap m k.
+  exists m items, place_grid_items m0 children fl = Ok (m, items) /\ exists k, 0 <= k <= 64 /\ cap m k /\ grows m0 m.
 Proof.
   intros children m0 fl Hec Her Hch Hfit Hlen Hcap0. unfold place_grid_items. simpl.
   set (ecc := tc_explicit (m_cols m0)) in *. set (erc := tc_explicit (m_rows m0)) in *. set (pax := primary_axis fl).
@@ -795,13 +796,25 @@ Proof.
   { intros m k Hg Hc Hk. destruct Hg as ((S1 & S2 & S3 & S4) & _). destruct G2 as ((T1 & T2 & T3 & T4) & _).
     destruct (cap_bounds m k pax Hc Hk) as (_ & _ & _ & ?). destruct (cap_bounds m k (other_axis pax) Hc Hk) as (_ & _ & _ & ?).
     unfold cursor_ok, gs. fold pax. simpl. destruct pax; simpl in *; lia. }
-  destruct (foldM_total_count _ _ (phase4_step ecc erc fl gs) (P4 m0 fl) L4 (m2, items2, gs) k2) as [st4 [E4 [C4 _]]].
+  destruct (foldM_total_count _ _ (phase4_step ecc erc fl gs) (P4 m0 fl) L4 (m2, items2, gs) k2) as [st4 [E4 [C4 [G4 _]]]].
   { split; [exact C2|]. split; [exact G2|]. simpl. eapply Hgs; eauto. unfold k2; lia. }
   { intros k s x Hin Hk Hp. apply filter_In in Hin. destruct Hin as [Hin Hf].
     eapply phase4_step_total; eauto; [unfold k2 in Hk; lia|].
     intros m Hg Hc. eapply Hgs; eauto. unfold k2 in Hk; lia. }
   rewrite E4. cbn [bind]. destruct st4 as [[m4 items4] gp4]. exists m4, items4. split; [reflexivity|].
-  exists (k2 + Z.of_nat (length L4)). split; [unfold k2; lia|exact C4].
+  exists (k2 + Z.of_nat (length L4)). split; [unfold k2; lia|]. split; [exact C4|exact G4].
+Qed.
+
+Lemma place_grid_items_total : forall children m0 fl,
+  0 <= tc_explicit (m_cols m0) <= 64 -> 0 <= tc_explicit (m_rows m0) <= 64 ->
+  Forall (fun c => child_ok (snd c)) children ->
+  Forall (fun c => child_fits (tc_explicit (m_cols m0)) (tc_explicit (m_rows m0)) m0 (snd c)) children ->
+  (length children <= 64)%nat -> cap m0 0 ->
+  exists m items, place_grid_items m0 children fl = Ok (m, items) /\ exists k, 0 <= k <= 64 /\ cap m k.
+Proof.
+  intros children m0 fl Hec Her Hch Hfit Hlen Hcap0.
+  destruct (place_grid_items_total_grows children m0 fl Hec Her Hch Hfit Hlen Hcap0) as (m & items & E & k & Hk & Hc & _).
+  exists m, items. split; [exact E|]. exists k. split; assumption.
 Qed.
 
 (* ------------------------------------------------------------------ the report and the whole run *)
